@@ -65,30 +65,41 @@ def reqCtx (sc : Scenario) (hdrIn : List Entry) : Ctx :=
 def replyCtx (sc : Scenario) (hdrIn : List Entry) (hit : Bool) : RCtx :=
   { isHit := hit, chunkedReply := sc.opts.contains 'c' && sc.http11, proxyKeepalive := persistent sc.http11 hdrIn && !(sc.opts.contains 'c' && !sc.http11),
     viaOn := sc.variant != "v",
-    loginPassOrPassthru := sc.variant == "p" || sc.variant == "x",
+    -- request->peer_login is set by peer selection: a hit never gets there
+    loginPassOrPassthru := !hit && (sc.variant == "p" || sc.variant == "x"),
     requestHasSurrogateCapability := has hdrIn Id.SURROGATE_CAPABILITY,
     prohibitsContentLength := sc.status == 204 || sc.status / 100 == 1 }
 
 /-- the header the client sends / the origin sends, as the harness assembles them -/
 def clientFields (sc : Scenario) : List (Bytes × Bytes) :=
-  (bs "Host", bs "origin.test") :: sc.req ++ (if sc.opts.contains 'b' then [(bs "Content-Length", bs "3")] else [])
+  (bs "Host", bs "origin.test") :: sc.req ++ (if sc.opts.contains 'x' then [(bs "Expect", bs "100-continue")] else []) ++
+    (if sc.opts.contains 'b' then [(bs "Content-Length", bs "3")] else []) ++
+    (if sc.opts.contains 's' then [(bs "Transfer-Encoding", bs "chunked")] else [])
 
 def originFields (sc : Scenario) : List (Bytes × Bytes) :=
-  (bs "Date", bs "now") :: sc.resp ++
+  -- with 'x' the scenario's response fields travel in a `100 Continue` control message, the final response is bare
+  (bs "Date", bs "now") :: (if sc.opts.contains 'x' then [] else sc.resp) ++
     (if sc.opts.contains 'c' then [(bs "Transfer-Encoding", bs "chunked")] else [(bs "Content-Length", bs "4")])
 
 def e2e (sc : Scenario) : String :=
   if !(modelApplies && replyModelApplies) then "unknown-body" else
-  match mkEntries true (clientFields sc), mkEntries false (originFields sc) with
-  | some hdrIn0, some hdrRep =>
+  match mkEntries true (clientFields sc), mkEntries false (originFields sc), mkEntries false sc.resp with
+  | some hdrIn0, some hdrRep, some hdr1xx =>
     let hdrIn := interpretRange (sc.method == "GET" || sc.method == "HEAD") hdrIn0
-    let o := render starReq (buildRequest (reqCtx sc hdrIn) hdrIn)
+    -- a chunked upload ('s'): Squid re-chunks it (flags.chunked_request), unless the whole body arrived before the request was
+    -- forwarded: then the client side has already replaced the framing by its own Content-Length field (Http::Message::setContentLength)
+    let oPlain := render starReq (buildRequest (reqCtx sc hdrIn) hdrIn)
+    let o := if sc.opts.contains 's' then
+        render starReq (buildRequest { reqCtx sc hdrIn with chunkedRequest := true } hdrIn) ++ "||" ++
+        render starReq (buildRequest (reqCtx sc hdrIn) (hdrIn ++ [entryOf (bs "Content-Length") (bs "3")]))
+      else oPlain
     let c := render starResp (buildReply (replyCtx sc hdrIn false) hdrRep)
-    let first := "O=" ++ o ++ " C=" ++ toString sc.status ++ " " ++ c
+    let x := if sc.opts.contains 'x' then " X=" ++ render starResp (buildControlMsg false hdr1xx) else ""
+    let first := "O=" ++ o ++ x ++ " C=" ++ toString sc.status ++ " " ++ c
     if sc.opts.contains 'h' then
       first ++ " H=" ++ render starResp (buildReply (replyCtx sc hdrIn true) hdrRep) ++ " M=" ++ o ++ ";" ++ c
     else first
-  | _, _ => "reject:field"
+  | _, _, _ => "reject:field"
 
 def handle (line : String) : String :=
   match Driver.words line with
